@@ -43,12 +43,12 @@ SPAN_ATTRS = {"job_name", "job_id", "event_type", "event_id",
 def check(rep: Report, ctx: Ctx) -> None:
     sql = sql_of(ctx)
     r91_92(rep, ctx)
+    r98(rep, ctx)
     r93(rep, ctx, sql)
     r94(rep, ctx, sql)
     r95(rep, ctx, sql)
     r96(rep, ctx, sql)
     r97(rep, ctx, sql)
-    r98(rep, ctx)
     r99(rep, ctx)
 
 
@@ -437,7 +437,7 @@ def r97(rep: Report, ctx: Ctx, sql) -> None:
 
 def r98(rep: Report, ctx: Ctx) -> None:
     rep.rule("R9.8", "a hash row carries its root's trace id, name and "
-             "hash", 3)
+             "hash, and every row of a page is inserted", 4)
     fi = ctx.func("compute_graph_hashes_from_root_nodes")
     ctor = [c for c in ast.walk(fi.node) if isinstance(c, ast.Call)
             and call_name(c) == "JobHash"]
@@ -470,6 +470,33 @@ def r98(rep: Report, ctx: Ctx) -> None:
     ok = isinstance(a0, ast.Name) and a0.id == var
     rep.ob("R9.8", "job_hash <- shape hash of that root", ok, fi=fi, node=c,
            detail=f"job_hash = {unparse(v)[:80]}")
+    # every row computed for the page is inserted: the selection groups by
+    # (job_name, job_hash), so a row left out because "its hash" is already
+    # there loses the representative of another workflow (seed C09-z)
+    page = ctx.func("compute_graph_hashes_for_batch")
+    rep.seen(page)
+    ins = [c_ for c_ in ast.walk(page.node) if isinstance(c_, ast.Call)
+           and call_name(c_) == "insert_job_hashes"]
+    ok, how = False, "insert_job_hashes(...) not found"
+    if len(ins) == 1 and ins[0].args:
+        a = ins[0].args[0]
+        rv = ctx.reach(page).resolve(a, at=ins[0])
+        nb = len(ctx.reach(page).at(ins[0], a.id)) if isinstance(
+            a, ast.Name) else 1
+        from .effspec import mutated_locals
+        mut = mutated_locals(page, a) if isinstance(a, ast.Name) else []
+        src = isinstance(rv, ast.Call) and call_name(rv) == fi.name and \
+            rv.args and isinstance(rv.args[0], ast.Name) and \
+            rv.args[0].id == page.params()[0]
+        guards = enclosing(page.node, ins[0], (ast.If, ast.For, ast.While,
+                                               ast.Try))
+        ok = bool(src) and nb == 1 and not mut and not guards
+        how = (f"insert_job_hashes({unparse(a)}) <- {unparse(rv)[:70]}; "
+               f"{nb} definition(s) reach the insert"
+               + ("; modified in place" if mut else "")
+               + ("; the insert is conditional" if guards else ""))
+    rep.ob("R9.8", "every hash row computed for a page is inserted", ok,
+           fi=page, node=ins[0] if ins else page.node, detail=how)
 
 
 def r99(rep: Report, ctx: Ctx) -> None:
